@@ -115,9 +115,13 @@ func vExpected(c *vCtx, m []uint64, scale rlwe.Scale, tr *MaskedTransformFunc) [
 }
 
 func vTransformCase(c *vCtx, n, level int, tr *MaskedTransformFunc, refresh bool, tag string) {
+	vTransformCaseOut(c, n, level, c.Params.MaxLevel(), tr, refresh, tag)
+}
+
+// (maxLevel is the requested output level: the level of the common reference polynomial and of the re-encryption)
+func vTransformCaseOut(c *vCtx, n, level, maxLevel int, tr *MaskedTransformFunc, refresh bool, tag string) {
 	params := c.Params
 	t := params.PlaintextModulus()
-	maxLevel := params.MaxLevel()
 	m := vAtoms("m", vMessage, t, params.N())
 	ct := vEncryptT(c, m, level)
 	ct.Scale = params.NewScale(3)
@@ -157,6 +161,9 @@ func VerifH_C16_RefreshAndTransform() {
 		for _, level := range vLevels(c.Params) {
 			tag := "n" + vItoa(n) + "-L" + vItoa(level)
 			vTransformCase(c, n, level, nil, true, tag+"-refresh")
+			if level == 1 && params1(c) > 1 {
+				vTransformCaseOut(c, n, level, c.Params.MaxLevel()-1, nil, true, tag+"-refresh-to-a-level-below-the-maximum")
+			}
 			if n == vMaxParties || vTier() > 0 {
 				for _, dec := range []bool{true, false} {
 					for _, enc := range []bool{true, false} {
@@ -175,3 +182,5 @@ func VerifH_C16_RefreshAndTransform() {
 	}
 	vCover("C16-refresh-transform-reached")
 }
+
+func params1(c *vCtx) int { return c.Params.MaxLevel() }
